@@ -583,8 +583,8 @@ def signatures(rec, k, clauses, hz, dl):
 
 class Tally:
     """violations are collected per signature template and reported at the end: the syntactic group of a plain
-    delimiter (percent, pyquote, letter, ...) becomes part of the signature only when the failures of a template are
-    confined to one or two groups, i.e. when the defect is specific to the delimiter character"""
+    delimiter (percent, pyquote, letter, ...) becomes part of the signature only when the failures of a clause are
+    confined to one or two groups over the whole run, i.e. when the defect is specific to the delimiter character"""
 
     def __init__(self):
         self.by_sig = {}
@@ -599,9 +599,13 @@ class Tally:
             ent[1].append((what, case))
 
     def flush(self, ctx, cap=40, force=None):
+        seen = {}                        # failing clause -> groups of plain delimiters it failed with, over all templates
+        for template, groups in self.pending.items():
+            if "delim=plain{G}" in template:
+                seen.setdefault(template.split("|")[1], set()).update(groups)
         for template in sorted(self.pending):
             groups = self.pending[template]
-            specific = "delim=plain{G}" in template and (len(groups) <= 2 if force is None else force)
+            specific = "delim=plain{G}" in template and (len(seen[template.split("|")[1]]) <= 2 if force is None else force)
             for grp in sorted(groups):
                 sig = template.replace("{G}", "/" + grp if specific else "")
                 n, items = groups[grp]
